@@ -94,7 +94,7 @@ class Package:
 
     _counter = [0]
 
-    def __init__(self, root=None, loopcuts=None, stubs=None, inject=None, name=None, rewrite=True):
+    def __init__(self, root=None, loopcuts=None, stubs=None, inject=None, name=None, rewrite=True, vc_runtime=None):
         self.root = root or repo_src()
         Package._counter[0] += 1
         self.name = name or f"vc_ic{Package._counter[0]}"
@@ -104,7 +104,7 @@ class Package:
         self.rewrite = rewrite
         self.hits = {}
         self.sha = {}
-        self.vc_runtime = None
+        self.vc_runtime = vc_runtime
         self.pkg = types.ModuleType(self.name)
         self.pkg.__path__ = [self.root]
         sys.modules[self.name] = self.pkg
@@ -139,6 +139,7 @@ class Package:
             rw = guarded.Rewrite(short)
             tree = rw.visit(tree)
             self.hits[name] = rw.hits
+            ast.fix_missing_locations(tree)
         for (fname, ordinal, lid) in self.loopcuts.get(name, []):
             from . import loopcut
             tree = loopcut.cut_tree(tree, fname, ordinal, lid)
